@@ -20,7 +20,7 @@ ASSUMPTIONS = ["failpoints raise a RuntimeError subclass at the entry of a layer
                "sites at or below the transport cipher in the byte stream (network, segments in both directions, noise on receive) lose bytes of an ordered encrypted stream when they fail: "
                "for them same-connection follow-ups are only required not to block, and everything is required to work after a reconnect",
                "after-failure follow-ups run in helper threads so that a wedged stack is observed as a blocked thread instead of hanging the check"]
-REQUIRED = ["real_write_error_cases", "real_write_error_ok", "real_write_error:socket", "real_write_error:asyncore", "cases", "failpoints_reached", "natural_failures", "locks_censused", "followups_ok", "reconnect_followups_ok",
+REQUIRED = ["real_upward_failure_cases", "real_upward_failure_ok", "real_write_error_cases", "real_write_error_ok", "real_write_error:socket", "real_write_error:asyncore", "cases", "failpoints_reached", "natural_failures", "locks_censused", "followups_ok", "reconnect_followups_ok",
             "sites", "other_thread_followups"]
 TIMEOUT = {"quick": 600, "thorough": 7200}
 
@@ -524,6 +524,116 @@ def real_write_error_case(acc, seed, tag, dispatcher_name):
         srv.stop()
 
 
+def real_upward_failure_case(acc, seed, tag, dispatcher_name):
+    """Real dispatcher over loopback: a layer raises while an incoming frame travels upward; the application reconnects at once
+    from another thread (as soon as the connection is announced down), while the network thread may still be unwinding from
+    the failure. The new connection must log in, stay up and carry traffic; the old connection is announced down once."""
+    import sys
+    from vf import realnet, probes, inject
+    from yowsup.layers.network import YowNetworkLayer
+    from yowsup.layers.auth import YowAuthenticationProtocolLayer
+    from yowsup.layers.protocol_iq.protocolentities import PingIqProtocolEntity
+    disp = YowNetworkLayer.DISPATCHER_SOCKET if dispatcher_name == "socket" else YowNetworkLayer.DISPATCHER_ASYNCORE
+    srv = realnet.LoopServer()
+    srv.start()
+    c = realnet.RealClient("c12up_%s" % tag.replace("/", "_"), srv.port, disp)
+    w = {"tag": tag, "dispatcher": dispatcher_name, "kind": "upward-failure-reconnect"}
+    A, D = YowAuthenticationProtocolLayer.EVENT_AUTHED, YowNetworkLayer.EVENT_STATE_DISCONNECTED
+    acc.count("real_upward_failure_cases")
+    acc.case(["real-upward-failure", dispatcher_name, tag], nontrivial=True)
+    mon = sys.monitoring
+    installed = [False]
+
+    def bad(key, what, **extra):
+        acc.violation("real-upward-failure:%s:%s" % (key, dispatcher_name), "%s dispatcher, a layer raises on an incoming frame and the application reconnects at once: %s" % (dispatcher_name, what), dict(w, **extra))
+        return False
+    try:
+        c.start_loop()
+        c.connect_async()
+        if not c.wait(lambda: c.events(A) >= 1, 15):
+            acc.inconc("%s: login over loopback did not complete" % tag)
+            return False
+        old_thread = c.net_threads[0]
+        armed = [True]
+
+        def boom(data):
+            if armed[0]:
+                armed[0] = False
+                raise RuntimeError("verif: failure in a layer while a frame travels upward")
+        c.probe_low.on_receive = boom
+        at_point, resume, paused = threading.Event(), threading.Event(), [False]
+        where = [None]
+
+        def cb(code, lineno):
+            if not code.co_filename.endswith(("network/layer.py", "dispatcher_asyncore.py", "dispatcher_socket.py")):
+                return mon.DISABLE
+            if paused[0] or threading.current_thread() is not old_thread or c.events(D) < 1:
+                return None
+            paused[0] = True
+            where[0] = "%s:%d" % (code.co_name, lineno)
+            at_point.set()
+            resume.wait(5)
+        try:
+            mon.use_tool_id(inject.TOOL, "vf-upfail")
+        except ValueError:
+            mon.free_tool_id(inject.TOOL)
+            mon.use_tool_id(inject.TOOL, "vf-upfail")
+        installed[0] = True
+        mon.register_callback(inject.TOOL, mon.events.LINE, cb)
+        mon.set_events(inject.TOOL, mon.events.LINE)
+        mon.restart_events()
+        srv.conns[0].send_stanza(("ib", {"from": "s.whatsapp.net"}, [("dirty", {"type": "groups", "timestamp": "1600000000"}, [], None)], None))
+        if not c.wait(lambda: c.events(D) >= 1, 10):
+            return bad("no-disconnected", "the failed connection was never announced as down (status %s)" % c.net.getStatus())
+        mid = at_point.wait(0.5)
+        # the application reacts to the announcement as soon as it has reached it (the stack's loop has turned: reconnecting
+        # before that is the known finding reconnect-up-before-loop-turn of C16), from its own thread, while the network thread
+        # that ran the failed connection is held at its next line
+        if not c.wait(lambda: c.probe_top.event_names().count(D) >= 1, 5):
+            return bad("no-disconnected-at-top", "the down announcement never reached the application")
+        c.connect_async()
+        if mid:
+            c.wait(lambda: c.net.state != YowNetworkLayer.STATE_DISCONNECTED, 2)
+            acc.count("real_upward_reconnect_while_unwinding")
+            acc.seen("upward_unwind_points", where[0])
+        resume.set()
+        if not c.wait(lambda: c.events(A) >= 2, 15):
+            return bad("no-relogin", "the new connection does not log in (server states %s, disconnected announced %d times)" % ([x.srv.state for x in srv.conns], c.events(D)))
+        time.sleep(0.3)
+        if not c.net.getStatus():
+            return bad("new-connection-marked-down", "the new connection is alive at the server but the network layer reports it down (disconnected announced %d times)" % c.events(D))
+        if c.events(D) != 1:
+            return bad("disconnected-count", "one connection went down, 'disconnected' was announced %d times" % c.events(D))
+        n0 = len(srv.conns[-1].stanzas)
+        c.app.toLower(PingIqProtocolEntity())
+        if not c.wait(lambda: len(srv.conns[-1].stanzas) > n0, 6):
+            return bad("followup-lost", "a send on the new connection did not reach the server")
+        acc.count("real_upward_failure_ok")
+        return True
+    finally:
+        try:
+            resume.set()
+        except Exception:
+            pass
+        if installed[0]:
+            mon.set_events(inject.TOOL, 0)
+            mon.register_callback(inject.TOOL, mon.events.LINE, None)
+            mon.free_tool_id(inject.TOOL)
+
+        def cleanup():
+            try:
+                c.app.disconnect()
+            except Exception:
+                pass
+        ct = threading.Thread(target=cleanup, name="verif-cleanup")
+        ct.daemon = True
+        ct.start()
+        ct.join(3)
+        c.stop_loop()
+        time.sleep(0.05)
+        srv.stop()
+
+
 def shards(tier, seed, nworkers):
     q = tier == "quick"
     cases = all_cases(tier)
@@ -531,12 +641,18 @@ def shards(tier, seed, nworkers):
     specs = [{"kind": "cases", "cases": cases[i::nsh], "shard": i} for i in range(nsh)]
     for dname in ("socket", "asyncore"):
         specs.append({"kind": "real-write-error", "dispatcher": dname, "n": 3 if q else 40})
+        specs.append({"kind": "real-upward-failure", "dispatcher": dname, "n": 3 if q else 40})
     return specs
 
 
 def run(spec, acc):
     from vf import env
     env.shim_thirdparty()
+    if spec["kind"] == "real-upward-failure":
+        for i in range(spec["n"]):
+            real_upward_failure_case(acc, spec["seed"], "ru/%s/%d" % (spec["dispatcher"], i), spec["dispatcher"])
+        acc.sample({"real_upward_failure": "a layer raises on an incoming frame; reconnect from another thread while the network thread unwinds", "dispatcher": spec["dispatcher"]})
+        return
     if spec["kind"] == "real-write-error":
         for i in range(spec["n"]):
             real_write_error_case(acc, spec["seed"], "rw/%s/%d" % (spec["dispatcher"], i), spec["dispatcher"])
